@@ -144,6 +144,18 @@ func (x *Exec) execInstr(fr *Frame, in ssa.Instruction, st *State) {
 			x.check(fr, st, i.Pos(), "nil-deref", "(not (= "+pt+" 0))")
 		}
 		val := x.value(fr, i.Val)
+		if val.Cl != nil {
+			// a closure stored into its variable's cell (the variable is captured by another
+			// closure): remember which closure the cell holds, when it is assigned only once
+			if a, ok := i.Addr.(*ssa.Alloc); ok && singleStore(a) {
+				if pt, ok := x.ptrTerm(addr); ok {
+					if x.cellClosures == nil {
+						x.cellClosures = map[string]*Closure{}
+					}
+					x.cellClosures[pt] = val.Cl
+				}
+			}
+		}
 		x.storePlace(st, x.placeOf(addr), x.encode(st, val))
 	case *ssa.TypeAssert:
 		fr.vals[i] = x.typeAssert(fr, st, i)
@@ -586,6 +598,20 @@ func (x *Exec) eqVals(st *State, a, b V) string {
 	return "(= " + a.S + " " + b.S + ")"
 }
 
+// singleStore: the cell is assigned exactly once in its function.
+func singleStore(a *ssa.Alloc) bool {
+	if a.Referrers() == nil {
+		return false
+	}
+	n := 0
+	for _, ref := range *a.Referrers() {
+		if stv, ok := ref.(*ssa.Store); ok && stv.Addr == a {
+			n++
+		}
+	}
+	return n == 1
+}
+
 func (x *Exec) unop(fr *Frame, st *State, i *ssa.UnOp) V {
 	v := x.value(fr, i.X)
 	switch i.Op {
@@ -597,7 +623,15 @@ func (x *Exec) unop(fr *Frame, st *State, i *ssa.UnOp) V {
 		if strings.HasPrefix(p.Arr, "G:") {
 			return x.loadGlobal(st, p, i.X)
 		}
-		return x.loadPlace(st, p)
+		lv := x.loadPlace(st, p)
+		if _, isFn := lv.T.Underlying().(*types.Signature); isFn && x.cellClosures != nil {
+			if pt, ok := x.ptrTerm(v); ok {
+				if cl := x.cellClosures[pt]; cl != nil {
+					lv.Cl = cl
+				}
+			}
+		}
+		return lv
 	case token.NOT:
 		return V{T: i.Type(), S: not(v.S)}
 	case token.SUB:
